@@ -33,7 +33,7 @@ for cid in [prop] + extra:
     env = dict(os.environ, MUTREPO="/tmp/mutrepo_" + prop)
     rr = subprocess.run(["./tools_seed.sh", os.path.join(seed, "patch.diff"), cid], capture_output=True, text=True, env=env)
     out = rr.stdout + rr.stderr
-    sigs = sorted(set(re.findall(r"sig=(\S+)", out)))
+    sigs = sorted(set(re.findall(r"^  sig=(\S+)", out, re.M)))
     summ = [l for l in out.splitlines() if l.startswith(cid + " ")]
     print(cid, "sigs:", sigs[:8], "|", (summ[-1] if summ else out[-300:])[:200])
     harness = [l for l in out.splitlines() if "HARNESS" in l]
